@@ -12,41 +12,41 @@ CHECKS = {
     "C11": ("typed-HIR shape rules on every GatherToggle match + who-may-call on section request functions + value analysis of the app-id guard",
             "Decides that each section request can only be issued from the Try/Enforce arm of its own toggle with the prescribed error handling (.ok() vs ?), lands in its own response field, and that BadGame is reachable only under check_app_id && !is_specified_id with is_specified_id set only under app-id equality.",
             TB + "Does not decide wire-level absence of requests (C09/C10 cover the send sites).", "DESIGN 4 C11"),
-    "C12": ("must-pass-through (dominance) on socket constructors, who-may-call on raw socket APIs, argument provenance of timeout settings, canonical dataflow renderings of the timeout wiring",
+    "C12": ("must-pass-through (dominance) on socket constructors, who-may-call on raw socket APIs, argument provenance of timeout settings, reviewed table of the canonical terms of every socket / http / TimeoutSettings function",
             "Decides the wiring half of the property: every socket is created through code paths that apply the caller's (or non-zero default) timeouts with read->read and write->write, TCP uses connect_timeout, the HTTP agent gets the three timeouts, the UDP bind address follows the target's family, the URL host is never a bare IpAddr, UDP receive returns exactly buf[..n].",
             TB + "No timing claim is decided (attempts x timeout, scheduling slack, kernel behaviour): that clause needs real sockets and is outside this family.", "DESIGN 4 C12"),
     "C13": ("allocation-size provenance over MIR: every capacity-taking allocation classified CONST/TYPE/LEN/PARAM by the interval+zone analysis (element layout sizes from rustc), receive-size and send-in-loop rules",
             "Enumerates every with_capacity / vec![x; n] / reserve-style site of the library and requires its size operand to be bounded by a constant, an integer type/mask/min (<= 16 MiB with the element's layout size) or the length of data already held; receive buffers must be bounded constants; sends must sit outside loops or in receive-driven loops. The valve decompressed-size allocation is a recorded known finding.",
             TB + "The 64 MiB live total and allocations inside dependencies are not decided.", "DESIGN 4 C13, 3 E3"),
-    "C19": ("result-not-dropped dataflow on MIR for every local Result-returning call of the CLI, panic-site ledger over the CLI crate, provenance of XML element-name arguments",
+    "C19": ("result-not-dropped dataflow on MIR for every local Result-returning call of the CLI, panic-site ledger over the CLI crate and over the library's flag value parsers, provenance of XML element-name arguments, reviewed table of the canonical terms of main / dispatch / writers",
             "Decides that no writer/lookup Result in the CLI is discarded and main returns Result (errors exit non-zero), that the CLI's panic sites are discharged or reviewed, and flags data-derived XML element names (recorded known finding).",
             TB + "Well-formedness/faithfulness of the emitted JSON/XML/BSON text and exit statuses are serialiser/run-time behaviour and not decided.", "DESIGN 4 C19"),
     "C20": ("panic-site ledger and loop classification over the id-tests crate, bounded-recursion rule on the typed HIR",
             "Enumerates every panic site of the naming checker from MIR; each is discharged, reviewed with anchors, or (the two explicit panics on <digits>-<text> names, probe-confirmed) a recorded known finding; loops are iterator-driven and the single recursion is bounded by is_mod_name. The set of decisions that read the proposed id is fixed to the three reviewed ones (equality with the computed expected id twice, the generator-implied lower-case precondition).",
             TB + "That the generator computes the intended id for every name is value-level and not decided.", "DESIGN 4 C20"),
-    "C15": ("typed-HIR field-mapping extraction over every CommonResponse/CommonPlayer impl enumerated from the trait-impl index, compared with a same-name-or-reviewed-synonym rule; default as_json wiring",
+    "C15": ("symbolic evaluation of every CommonResponse/CommonPlayer accessor (impls enumerated from the trait-impl index) to its canonical returned value; transparent-wrapper stripping with closure transparency; same-name-or-reviewed-synonym rule; default as_json wiring on the canonical struct value",
             "For all impls (enumerated, so a new impl is checked automatically) every accessor must return the same-named (or reviewed synonym) field of its own type, as_json must wire each JSON field to the same-named accessor, as_original must wrap self.",
             TB + "Value equality at run time and serde's rendering are not decided.", "DESIGN 4 C15"),
-    "C17": ("inductive type-invariant proof (cursor <= data.len()) over all constructors and writers of the private field using the abstract interpreter, per-impl decoder contract, ghost-variable proof of unchanged-on-error, sibling agreement of BufferRead impls, VarInt loop-bound rules, panic-site ledger for the reader/codecs",
+    "C17": ("inductive type-invariant proof (cursor <= data.len()) over all constructors and writers of the private field using the abstract interpreter, per-impl decoder contract, ghost-variable proof of unchanged-on-error, sibling agreement of BufferRead impls, VarInt loop-bound rules, panic-site ledger for the reader/codecs, reviewed table of the canonical terms of every reader / codec function (the reference model)",
             "Proves by induction over the closed set of functions able to write Buffer.cursor that the position never leaves the packet, that failed reads leave it unchanged, that read advances by size_of::<T>(), that each BufferRead impl uses its own width/byte order, that VarInt decoding reads at most 5 bytes and rejects over-long encodings; all slice/arith sites in the reader and codecs are discharged.",
             TB + "VarInt/string round-trip equality over all values and the reference-model conformance over operation sequences are value-level and not decided.", "DESIGN 4 C17"),
     "C18": ("who-may-construct enumeration of every TimeoutSettings aggregate (including derive-generated bodies), dominance of is_zero rejections, inferred contract of the CLI value parser, panic-site ledger for settings-dependent sites, compile-fail witnesses for the closed constructor set",
             "Enumerates all construction sites of TimeoutSettings in all bodies, requires each to be validated (constructor checks / non-zero constants / value parser proven to reject 0), discharges the settings-dependent panic sites, and (thorough) pins with compile_fail,E0451 that no other construction path exists outside the crate. The derive(Deserialize) path is a recorded known finding.",
             TB + "OS behaviour for extreme durations is not decided.", "DESIGN 4 C18"),
     # id: (technique, level text, level note, design_ref)
-    "C02": ("typed-HIR wire-trace extraction (ordered reads with resolved width / signedness / byte order / decoder, key and index lookups, conversions, guards, destination fields; locals canonicalised) compared row by row with reviewed spec tables", "Every Valve parser (A2S_INFO Source and obsolete GoldSrc, A2S_PLAYER, A2S_RULES, split-packet header, packet header, per-game projections) is reduced to its wire schedule and compared with a table reviewed against the Valve Server Queries specification; any change of order, width, endianness, mask, condition, skip or destination field is reported with both rows. Three defects found this way were repaired (GoldSrc header byte, GoldSrc NULL byte, per-fragment size/crc).", TB + "Equality of decoded values for all server states (UTF-8, bzip2, float bits) needs execution and is not decided. The tables are the oracle; rows I could not confirm from documentation are regression locks.", "DESIGN 4 C02, 3 E4/E5"),
-    "C03": ("typed-HIR wire-trace extraction (ordered reads with resolved width / signedness / byte order / decoder, key and index lookups, conversions, guards, destination fields; locals canonicalised) compared row by row with reviewed spec tables + call-sequence rows for the auto-detect order", "Java JSON pointers, Bedrock pong layout and ';' index table, legacy 1.6/1.4/b1.8 kick packets, fixed labels, and the Java -> Bedrock -> legacy (1.6, 1.4, b1.8) try order are tabled and compared.", TB + "Exactness of decoded values (serde_json, UTF-16) is not decided.", "DESIGN 4 C03"),
-    "C04": ("typed-HIR wire-trace extraction (ordered reads with resolved width / signedness / byte order / decoder, key and index lookups, conversions, guards, destination fields; locals canonicalised) compared row by row with reviewed spec tables", "GameSpy 1/2/3 key tables (typed fields taken with remove, fallbacks, per-player/team keys and columns), GS2 table schedule, GS3 packet header and section parsing are tabled and compared.", TB + "Values for all server states and multi-part merges are not decided (C08 covers arrival order).", "DESIGN 4 C04"),
-    "C05": ("typed-HIR wire-trace extraction (ordered reads with resolved width / signedness / byte order / decoder, key and index lookups, conversions, guards, destination fields; locals canonicalised) compared row by row with reviewed spec tables", "Quake 1/2/3 response prefixes, variable key table with fallbacks, per-version player line field order, quote stripping and the player-loop guard are tabled and compared (the constant-false guard defect was repaired).", TB + "Exact values are not decided.", "DESIGN 4 C05"),
-    "C06": ("typed-HIR wire-trace extraction (ordered reads with resolved width / signedness / byte order / decoder, key and index lookups, conversions, guards, destination fields; locals canonicalised) compared row by row with reviewed spec tables", "Unreal 2 response header, server-info / rules / players schedules, bot-iff-ping-0 branch, and the string decoder body (length byte, UCS-2 flag, Latin-1 range excluding the length byte, colour stripping) are tabled and compared.", TB + "Colour-strip semantics on all strings are not decided.", "DESIGN 4 C06"),
-    "C07": ("typed-HIR wire-trace extraction (ordered reads with resolved width / signedness / byte order / decoder, key and index lookups, conversions, guards, destination fields; locals canonicalised) compared row by row with reviewed spec tables", "FFOW, Savage 2, JC2M, Mindustry schedules, The Ship and Battalion 1944 projections/overrides and the Eco Root -> Response map are tabled and compared.", TB + "Values and HTTP transport are not decided.", "DESIGN 4 C07"),
+    "C02": ("symbolic evaluation of the typed HIR of every exported function of the protocol (private helpers inlined, let-bindings substituted, control flow put in a canonical form) into a canonical wire term - ordered reads with resolved width / signedness / byte order / decoder, sends, order-sensitive mutations, guards, loops, returned field values - compared row by row with reviewed tables; coverage obligation that every reachable helper is part of some term", "The whole Valve query (info Source / obsolete GoldSrc, challenge loop, split and compressed reassembly, players, rules, app-id check, gather toggles, per-game projections) is reduced to one canonical term per exported function and compared with a table reviewed against the Valve Server Queries specification; any change of order, width, endianness, mask, condition, skip or destination field is reported with both rows, while renames, helper extraction, literal reordering and if/match restyling are not. Defects found by reading the tables were repaired (GoldSrc header byte, GoldSrc NULL byte, per-fragment size/crc).", TB + "Equality of decoded values for all server states (UTF-8, bzip2, float bits) needs execution and is not decided. The tables are the oracle; rows I could not confirm from documentation are regression locks.", "DESIGN 4 C02, 3 E4/E5"),
+    "C03": ("symbolic evaluation of the typed HIR of every exported function of the protocol (private helpers inlined, let-bindings substituted, control flow put in a canonical form) into a canonical wire term - ordered reads with resolved width / signedness / byte order / decoder, sends, order-sensitive mutations, guards, loops, returned field values - compared row by row with reviewed tables; coverage obligation that every reachable helper is part of some term + call-sequence rows for the auto-detect order", "Java JSON pointers, Bedrock pong layout and ';' index table, legacy 1.6/1.4/b1.8 kick packets, fixed labels, and the Java -> Bedrock -> legacy (1.6, 1.4, b1.8) try order are tabled and compared.", TB + "Exactness of decoded values (serde_json, UTF-16) is not decided.", "DESIGN 4 C03"),
+    "C04": ("symbolic evaluation of the typed HIR of every exported function of the protocol (private helpers inlined, let-bindings substituted, control flow put in a canonical form) into a canonical wire term - ordered reads with resolved width / signedness / byte order / decoder, sends, order-sensitive mutations, guards, loops, returned field values - compared row by row with reviewed tables; coverage obligation that every reachable helper is part of some term", "GameSpy 1/2/3 key tables (typed fields taken with remove, fallbacks, per-player/team keys and columns), GS2 table schedule, GS3 handshake, packet header and section parsing are tabled and compared. Reading the GS3 table against node-gamedig exposed that player/team sections were never decoded (cursor moved forward instead of back after the marker test); probe-confirmed and repaired.", TB + "Values for all server states and multi-part merges are not decided (C08 covers arrival order).", "DESIGN 4 C04"),
+    "C05": ("symbolic evaluation of the typed HIR of every exported function of the protocol (private helpers inlined, let-bindings substituted, control flow put in a canonical form) into a canonical wire term - ordered reads with resolved width / signedness / byte order / decoder, sends, order-sensitive mutations, guards, loops, returned field values - compared row by row with reviewed tables; coverage obligation that every reachable helper is part of some term", "Quake 1/2/3 response prefixes, variable key table with fallbacks, per-version player line field order, quote stripping and the player-loop guard are tabled and compared (the constant-false guard defect was repaired).", TB + "Exact values are not decided.", "DESIGN 4 C05"),
+    "C06": ("symbolic evaluation of the typed HIR of every exported function of the protocol (private helpers inlined, let-bindings substituted, control flow put in a canonical form) into a canonical wire term - ordered reads with resolved width / signedness / byte order / decoder, sends, order-sensitive mutations, guards, loops, returned field values - compared row by row with reviewed tables; coverage obligation that every reachable helper is part of some term", "Unreal 2 response header, server-info / rules / players schedules, bot-iff-ping-0 branch, and the string decoder body (length byte, UCS-2 flag, Latin-1 range excluding the length byte, colour stripping) are tabled and compared.", TB + "Colour-strip semantics on all strings are not decided.", "DESIGN 4 C06"),
+    "C07": ("symbolic evaluation of the typed HIR of every exported function of the protocol (private helpers inlined, let-bindings substituted, control flow put in a canonical form) into a canonical wire term - ordered reads with resolved width / signedness / byte order / decoder, sends, order-sensitive mutations, guards, loops, returned field values - compared row by row with reviewed tables; coverage obligation that every reachable helper is part of some term", "FFOW, Savage 2, JC2M, Mindustry schedules, The Ship and Battalion 1944 projections/overrides and the Eco Root -> Response map are tabled and compared.", TB + "Values and HTTP transport are not decided.", "DESIGN 4 C07"),
     "C08": ("effect/ordering analysis of every reassembly loop over MIR: completion-mode classification (count / silence / single-datagram flag), ordered-fold detection through callees with result-flow, sort-coverage of all fragment constructions", "Necessary conditions for order independence decided structurally for all five reassembly loops; the Valve first-fragment bypass was repaired; GameSpy 1/3 flag-driven completion and Unreal 2 arrival-ordered lists are recorded known findings.", TB + "That permutations actually yield equal values needs execution.", "DESIGN 4 C08, 3 E8"),
-    "C09": ("typed-HIR wire-trace extraction (ordered reads with resolved width / signedness / byte order / decoder, key and index lookups, conversions, guards, destination fields; locals canonicalised) compared row by row with reviewed spec tables for every request builder/sender + who-may-call on Socket::send + address/port provenance over MIR at all public (address, port) entry points", "All request literals, framings, field byte orders and challenge placements are tabled; send is only reachable from tabled functions; each of the ~100 public entry points builds SocketAddr::new(*address, port.unwrap_or(K)) or forwards unchanged; sockets use the stored address. The little-endian Java port was repaired.", TB + "Bytes on the wire at run time and all 2^32 challenge values are not enumerated; the move-only path makes the echo value-independent.", "DESIGN 4 C09"),
+    "C09": ("symbolic evaluation of the typed HIR of every exported function of the protocol (private helpers inlined, let-bindings substituted, control flow put in a canonical form) into a canonical wire term - ordered reads with resolved width / signedness / byte order / decoder, sends, order-sensitive mutations, guards, loops, returned field values - compared row by row with reviewed tables; coverage obligation that every reachable helper is part of some term projected onto socket construction, sends and unit calls (the request table) + every Socket::send call site must lie inside a tabled term + address/port provenance over MIR at all public (address, port) entry points", "All request literals, framings, field byte orders and challenge placements are tabled as the projection of each I/O function's term; every send site is part of a tabled term; each of the ~100 public entry points builds SocketAddr::new(*address, port.unwrap_or(K)) or forwards unchanged; sockets use the stored address. The little-endian Java port was repaired.", TB + "Bytes on the wire at run time and all 2^32 challenge values are not enumerated; the move-only path makes the echo value-independent.", "DESIGN 4 C09"),
     "C14": ("definition-table cross-check: GAMES rows extracted from the typed HIR of the static, joined with the dispatcher's per-protocol call arms and each game's wrapper (default port, protocol function, engine, gather settings) with an observational-equality rule for engines", "All 96 table rows are joined with the generic dispatcher and the dedicated modules; mismatching ports / protocol functions / engines / gather settings are reported per game. Base Defense was repaired; The Forest, Rising World, Eco and Minecraft-auto-detect mismatches are recorded known findings; Arma Reforger's differing but unobservable engine id is correctly not reported.", TB + "Equal responses for arbitrary server behaviour beyond equality of these parameters are not decided.", "DESIGN 4 C14, 3 E7"),
-    "C16": ("typed-HIR wire-trace extraction (ordered reads with resolved width / signedness / byte order / decoder, key and index lookups, conversions, guards, destination fields; locals canonicalised) compared row by row with reviewed spec tables for the filter key table, group prefix, filter string, request layout, reply schedule and paging loop", "insert/insert_nand/insert_nor group wiring, the 18 filter keys, the \\\\nand\\\\N / \\\\nor\\\\N prefix, the request layout, the big-endian reply schedule and the paging loop (seed, exits, terminator pop) are tabled and compared; the swapped groups and the malformed prefix were repaired.", TB + "Denotation of all insertion sequences (map iteration order) is not decided.", "DESIGN 4 C16"),
-    "C10": ("call-graph coverage (who-may-call), argument provenance and loop-shape rules over resolved MIR",
+    "C16": ("symbolic evaluation of the typed HIR of every exported function of the protocol (private helpers inlined, let-bindings substituted, control flow put in a canonical form) into a canonical wire term - ordered reads with resolved width / signedness / byte order / decoder, sends, order-sensitive mutations, guards, loops, returned field values - compared row by row with reviewed tables; coverage obligation that every reachable helper is part of some term for the filter key table, group prefix, filter string, request layout, reply schedule and paging loop", "insert/insert_nand/insert_nor group wiring, the 18 filter keys, the \\\\nand\\\\N / \\\\nor\\\\N prefix, the request layout, the big-endian reply schedule and the paging loop (seed, exits, terminator pop) are tabled and compared; the swapped groups and the malformed prefix were repaired.", TB + "Denotation of all insertion sequences (map iteration order) is not decided.", "DESIGN 4 C16"),
+    "C10": ("call-graph coverage (who-may-call), argument provenance over resolved MIR; trip-count derivation and no-silent-discard rule on canonical terms (symbolic evaluation of typed HIR)",
             "Decides the structural necessary conditions of the retry contract: every send/receive site is inside a unit handed to "
-            "retry_on_timeout on all call chains, the count comes from the caller's TimeoutSettings, the helper loops at most r+1 times "
+            "retry_on_timeout on all call chains, the count comes from the caller's TimeoutSettings, the helper loops at most r+1 times (bound derived from the loop counter, whatever the loop is written like), no receive loop can drop a datagram silently, "
             "and retries exactly the two transport error kinds, which only the transport layer can construct. Enumerates all such sites "
             "of the current tree (exhaustive over code, not over runs).",
             "Does not decide 'same result as with no faults'. Trusts rustc's MIR and callee resolution and the gdfacts dump.", "DESIGN 4 C10"),
